@@ -37,6 +37,7 @@ type Desc struct {
 	ReqPm        int  `json:"requeue_pm,omitempty"`    // consumer: per-mille put-back when it holds a chunk it just took
 	DepthPm      int  `json:"depth_pm,omitempty"`      // consumer: per-mille GetDepth
 	AllPm        int  `json:"dequeueall_pm,omitempty"` // consumer: per-mille DequeueAll (rest: Dequeue)
+	MaxHeld      int  `json:"max_held,omitempty"`      // consumer keeps up to this many taken chunks for put-back (>= 2: several put-backs outstanding at once)
 	Tail         bool `json:"requeue_tail,omitempty"`  // put back only the unread tail of what was taken (half of the put-backs)
 	ProdDepthPm  int  `json:"producer_depth_pm,omitempty"`
 	MaxPayload   int  `json:"max_payload,omitempty"`
@@ -46,7 +47,7 @@ type Desc struct {
 	Histories int `json:"histories,omitempty"`
 	MaxOps    int `json:"max_ops,omitempty"`
 
-	// seq: histories Lo..Hi-1 of length Len (base-5 numbering over Enqueue Dequeue DequeueAll Requeue GetDepth)
+	// seq: histories Lo..Hi-1 of length Len (base-6 numbering over Enqueue Dequeue DequeueAll Requeue GetDepth RequeueOldestHeld)
 	Len int   `json:"len,omitempty"`
 	Lo  int64 `json:"lo,omitempty"`
 	Hi  int64 `json:"hi,omitempty"`
@@ -62,7 +63,7 @@ func gen(tier string, seed int64) []mon.Case {
 	add := func(prefix string, d Desc) {
 		cs = append(cs, mon.MkCase(fmt.Sprintf("c20/%s/%04d", prefix, len(cs)), d))
 	}
-	nStress, chunks, nLin, perLin, maxLen := 32, 30000, 80, 100, 7
+	nStress, chunks, nLin, perLin, maxLen := 32, 30000, 80, 100, 8
 	if tier == "thorough" {
 		nStress, chunks, nLin, perLin, maxLen = 160, 120000, 400, 250, 9
 	}
@@ -72,7 +73,7 @@ func gen(tier string, seed int64) []mon.Case {
 		d := Desc{Kind: "stress", Seed: r.Int63n(1 << 40), Chunks: chunks,
 			PYieldPm: pick(r, 0, 20, 200), CYieldPm: pick(r, 0, 20, 200),
 			ReqPm: pick(r, 50, 150, 300), DepthPm: pick(r, 20, 100), AllPm: pick(r, 20, 100, 250),
-			Tail: r.Intn(2) == 0, ProdDepthPm: pick(r, 0, 50, 200), MaxPayload: pick(r, 0, 8, 40)}
+			MaxHeld: pick(r, 1, 2, 3, 3), Tail: r.Intn(2) == 0, ProdDepthPm: pick(r, 0, 50, 200), MaxPayload: pick(r, 0, 8, 40)}
 		// regimes: the consumer outruns the producer (queue mostly empty), the producer outruns the
 		// consumer (backlog), or both at full speed
 		switch r.Intn(3) {
@@ -94,7 +95,7 @@ func gen(tier string, seed int64) []mon.Case {
 	}
 	// sequential: lengths 1..maxLen-2 in one case each ... the two longest lengths are split
 	for L := 1; L <= maxLen; L++ {
-		total := pow5(L)
+		total := powOps(L)
 		parts := int64(1)
 		if total > 4000 {
 			parts = (total + 3999) / 4000
@@ -120,7 +121,7 @@ func run(c mon.Case) mon.Result {
 		// synthetic cases added by Post; replaying one means: run a stress workload again and let
 		// Post read the race log of the replay
 		return runStress(Desc{Kind: "stress", Seed: 20, Chunks: 30000, Burst: 16, BurstSleepUs: 1, PYieldPm: 20, CYieldPm: 20,
-			ReqPm: 150, DepthPm: 100, AllPm: 100, Tail: true, ProdDepthPm: 200, MaxPayload: 8})
+			ReqPm: 150, DepthPm: 100, AllPm: 100, MaxHeld: 3, Tail: true, ProdDepthPm: 200, MaxPayload: 8})
 	}
 	return mon.Result{Verdict: mon.Inconclusive, Detail: "unknown case kind " + d.Kind}
 }
@@ -309,10 +310,12 @@ func init() {
 		Rule: "One case is a batch: a stress run (one producer, one consumer, N chunks with unique ids; 'pure' runs add no harness synchronisation between the two goroutines, 'bounds' runs add " +
 			"producer counters for the emptiness/depth-bounds oracle), a batch of short concurrent histories judged for linearizability, or a range of the exhaustive sequential enumeration. " +
 			"Non-trivial = stress run with >=1 put-back and >=1 empty dequeue; lin batch with >=1 history that has a put-back, an empty dequeue and overlapping operations of both clients; any " +
-			"sequential range with >=1 admissible history. Operation/history counts are in 'observed'. Distinct = distinct descriptor hash.",
+			"sequential range with >=1 admissible history. Operation/history counts are in 'observed' (incl. *_two_outstanding_putbacks: histories/operations with >=2 put-backs in the queue at once, " +
+			"then taken by DequeueAll / Dequeue). Sequential enumeration: 6 operations (Enqueue Dequeue DequeueAll GetDepth Requeue-newest-held Requeue-oldest-held). Distinct = distinct descriptor hash.",
 		Assumptions: []string{
 			"exactly one producer goroutine (Enqueue, GetDepth) and one consumer goroutine (Dequeue, DequeueAll, Requeue, GetDepth), as the channel uses the queue",
-			"Requeue is only called by the consumer with what its most recent Dequeue/DequeueAll returned (all of it or its non-empty tail), not put back before; sequential histories violating this are skipped",
+			"Requeue is only called by the consumer with a chunk it took before (result of a Dequeue/DequeueAll: all of it, or the non-empty tail of the only chunk it holds) and has not put back since; it may hold several taken chunks (stress/lin: up to 3) and put them back one after the other, so several put-backs can be outstanding at once; sequential histories violating this are skipped",
+			"order of several outstanding put-backs: from the statement's words 'putting a chunk back at the front' and 'put-back chunks re-read first' every put-back becomes the first element, i.e. after Requeue(a), Requeue(b) the queue reads b, a, then the rest - through Dequeue and through DequeueAll alike (this is also what the unchanged library's prepend does); stress runs put back most-recently-taken first, which restores the producer's stream order; lin and sequential histories also put back the oldest held chunk (reference: the deque)",
 			"chunks are non-empty and never modified after Enqueue",
 			"race detector: a report is attributed to the property when it occurs in a worker of this check; one deliberate canary race in harness code per worker proves the log pipeline and is excluded",
 			"linearizability: checker timeout (10 s per history) or disagreement between porcupine and the independent merge search is inconclusive, never a violation",
